@@ -32,6 +32,10 @@ CHECKS = {
     "C19": dict(engine="pipeline", ref="4 C19", text="TLC enumerates two-subgraph scenarios of Pipeline.tla and the specification's machine is run (PipelineFrom.tla) on each subgraph as a stand-alone scenario; SubgraphIndependent (terminal state of subgraph i inside the pair = terminal state of the stand-alone run, outcomes agree) is checked over these behaviours; the same comparison is made on the implementation (two-subgraph model vs extracted single-subgraph models, same recipe, same constants, statistics merged per subgraph): operators, wiring, dtypes, annotations and constant bytes equal; TLC evaluates the graph predicates on the pair's result.",
                 note=PIPE_NOTE + " SubgraphIndependent relates two behaviours: the pairing of TLC's terminal states is done by the harness.",
                 tech="TLA+ model checking (TLC) of Pipeline.tla / PipelineFrom.tla with cross-behaviour comparison + spec->code replay"),
+    "C06": dict(engine="pipeline", ref="4 C06", category="translation_validation",
+                text="Structural half decided by TLC: for weight-only / float16 / dynamic-range scenarios (enumerated over Pipeline.tla, plus random graphs through PipelineFrom.tla) Skeleton, ModesRespected and SharedConstOK are evaluated on the observed output graph, i.e. the output program is the input program with each rewritten constant replaced by DEQUANTIZE(enc(c)) or an integer weight for a hybrid kernel. Execution half: the reference float model is rebuilt from the input flatbuffer and the constants decoded from the output bytes by an independent decoder, and both run in the reference interpreter on random inputs (weight-only/float16: 1e-4 relative; dynamic range: analytic bound of the runtime's dynamic 8-bit activation quantisation for operators between graph input and output).",
+                note=PIPE_NOTE + " The equality of the two float executions is an interpreter observation, not a TLC deduction; deeper dynamic-range graphs are covered structurally only (counted in the evidence).",
+                tech="TLA+ model checking (TLC) of the structural half + reference-model execution comparison (translation validation)"),
     "C08": dict(engine="pipeline", ref="4 C08", text="TLC explores Pipeline.tla under the mode map each of the 5 shipped recipes induces (read from the implementation's resolution of the unchanged JSON) and reports every may-raise terminal state; every enumerated graph and seeded random larger graphs are then run through the real API with the unchanged JSON recipe and real calibrate(); the observed return/raise decides.",
                 note=PIPE_NOTE + " Known finding F20.", tech="TLA+ model checking (TLC) of Pipeline.tla (NeverRaises) + spec->code replay with the shipped recipe files"),
     "C11": dict(engine="recipe", ref="4 C11", text="Recipe.tla is the documented resolution model; TLC checks its structural invariants and action properties on every reachable store and emits every (store, letter) transition with the predicted accept/refuse, export and resolution table; each transition is replayed on a real RecipeManager and compared at every (operator, scope) pair; longer histories by TLC simulation.",
@@ -66,7 +70,7 @@ CHECKS = {
 NA = {
     "C07": "numeric closeness of chained LiteRT integer kernels to float kernels is not a property of any state the quantizer has; TLC has no model of those kernels and an empirical tolerance would either miss errors or raise false alarms (DESIGN 4 C07). Its discrete preconditions are decided under C03/C04/C05/C13.",
 }
-PLANNED = ["C06"]
+PLANNED = []
 
 
 def main():
@@ -75,7 +79,7 @@ def main():
     checks.append({
         "property_id": p, "quick_cmd": "./check %s --tier quick" % p, "thorough_cmd": "./check %s --tier thorough" % p,
         "evidence_file": "/verif/evidence/%s.json" % p, "replay_cmd_template": "./check %s --replay {path}" % p, "engine": c["engine"],
-        "level_claimed": {"category": "model_checking", "text": c["text"], "design_ref": c["ref"]},
+        "level_claimed": {"category": c.get("category", "model_checking"), "text": c["text"], "design_ref": c["ref"]},
         "level_note": c["note"], "technique": c["tech"]})
   na = [{"property_id": p, "reason": r} for p, r in NA.items()]
   for p in PLANNED:
